@@ -32,9 +32,9 @@ theorem legacy_F8 : ∃ (p : P) (k : Bytes), (p.put k ⟨true, []⟩).get Varian
 
 /-! ### tie by translation: the source's own leaf logic (regenerated into SV/Generated/Funcs.lean on every run) IS the model's -/
 theorem source_flush_test_is_the_models (p : P) :
-    p.bump = (if Gen.dbNoFlushNeeded p.sizeBatch p.maxBatch then { p with sizeBatch := p.sizeBatch + 1 }
+    p.bump = (if Gen.dbNoFlushNeeded (s_sizeBatch := p.sizeBatch) (s_maxBatchSize := p.maxBatch) then { p with sizeBatch := p.sizeBatch + 1 }
               else ({ p with sizeBatch := p.sizeBatch + 1 } : P).flush) ∧
-    Gen.serialNoFlushNeeded p.sizeBatch p.maxBatch = Gen.dbNoFlushNeeded p.sizeBatch p.maxBatch := GenProofs.bump_eq p
+    Gen.serialNoFlushNeeded (s_sizeBatch := p.sizeBatch) (s_maxBatchSize := p.maxBatch) = Gen.dbNoFlushNeeded (s_sizeBatch := p.sizeBatch) (s_maxBatchSize := p.maxBatch) := GenProofs.bump_eq p
 
 /-- (regenerated fact) the pending batch's Put / Delete / Reset perform unconditionally exactly the model's three effects each -/
 theorem batch_operations_have_the_models_effects :
